@@ -1024,6 +1024,16 @@ static struct fdent* fd_get(int fd)
 	return 0;
 }
 
+/* the kernel stamps modified files with its own clock: make that the simulated one */
+static void stamp_fd(int fd)
+{
+	struct timespec ts[2];
+	ts[0].tv_sec = clock_ns / 1000000000LL;
+	ts[0].tv_nsec = clock_ns % 1000000000LL;
+	ts[1] = ts[0];
+	__real_futimens(fd, ts);
+}
+
 /* ------------------------------------------------------------------------ */
 /* fault matching */
 
@@ -1523,6 +1533,8 @@ int __wrap_open(const char* p, int flags, ...)
 	fd = __real_open(p, flags, mode);
 	if (fd >= 0)
 		fdtab_set(fd, pid, flags, dev_index_rel(rel));
+	if (fd >= 0 && is_mut)
+		stamp_fd(fd);
 	ev_add(EV_OPEN, (is_mut ? EVF_MUT : 0) | ((!existed && fd >= 0) ? EVF_CREATED : 0), pid, flags, 0, res_of(fd), 0);
 	if (is_mut) {
 		sim_sh->trace[sim_slot][(C->nev - 1) & (SIM_TRACE_CAP - 1)].mut = idx;
@@ -1683,10 +1695,13 @@ ssize_t __wrap_write(int fd, const void* buf, size_t n)
 	if (is_torn_kill(idx) && n > 1) {
 		size_t part = 1 + sim_mix(C->run_seed, idx) % (n - 1);
 		r = __real_write(fd, buf, part);
+		stamp_fd(fd);
 		ev_add(EV_WRITE, EVF_MUT, e->path, -1, n, res_of(r), 1)->mut = idx;
 		sim_die();
 	}
 	r = __real_write(fd, buf, n);
+	if (r > 0)
+		stamp_fd(fd);
 	ev_add(EV_WRITE, EVF_MUT, e->path, -1, n, res_of(r), 0)->mut = idx;
 	mut_end(idx);
 	return r;
@@ -1720,10 +1735,13 @@ ssize_t __wrap_pwrite(int fd, const void* buf, size_t n, off_t off)
 	if (is_torn_kill(idx) && n > 1) {
 		size_t part = 1 + sim_mix(C->run_seed, idx) % (n - 1);
 		r = __real_pwrite(fd, buf, part, off);
+		stamp_fd(fd);
 		ev_add(EV_PWRITE, EVF_MUT, e->path, off, n, res_of(r), 1)->mut = idx;
 		sim_die();
 	}
 	r = __real_pwrite(fd, buf, n, off);
+	if (r > 0)
+		stamp_fd(fd);
 	ev_add(EV_PWRITE, EVF_MUT, e->path, off, n, res_of(r), (uint64_t)(uintptr_t)buf)->mut = idx;
 	mut_end(idx);
 	return r;
@@ -1773,6 +1791,8 @@ int __wrap_ftruncate(int fd, off_t len)
 		r = -1;
 	} else {
 		r = __real_ftruncate(fd, len);
+		if (r == 0)
+			stamp_fd(fd);
 	}
 	ev_add(EV_FTRUNCATE, EVF_MUT | (err ? EVF_FAULT : 0), e->path, len, 0, res_of(r), 0)->mut = idx;
 	mut_end(idx);
@@ -1799,6 +1819,8 @@ int __wrap_fallocate(int fd, int mode, off_t off, off_t len)
 		r = -1;
 	} else {
 		r = __real_fallocate(fd, mode, off, len);
+		if (r == 0)
+			stamp_fd(fd);
 	}
 	ev_add(EV_FALLOCATE, EVF_MUT | (err ? EVF_FAULT : 0), e->path, off, len, res_of(r), mode)->mut = idx;
 	mut_end(idx);
